@@ -179,6 +179,25 @@ def check(rep, tier, seed):
                 jobs.append((consumer, small)); labels.append("view --project-shape %s -> %s (%s, pipe)" % (to, consumer[0], fmtname))
     jobs.append((["view"], base)); labels.append("create -> view (text, pipe)")
     jobs.append((["stat", "-s", "sum"], base)); labels.append("create -> stat (text, pipe)")
+    # writing to a path that already holds a LONGER output (re-running into the same file): the file must be exactly
+    # the new spectrum and must be read back
+    for fmtname, ext in (("text", "txt"), ("npy", "npy")):
+        for producer in (["view", "-O", fmtname], ["fold", "--fill", "zero"]):
+            if producer[0] == "fold" and fmtname == "npy":
+                continue
+            path = os.path.join(WORK, "c07_overwrite.%s" % ext)
+            big = text_spectrum([6, 5], [str(i) + ".125" for i in range(30)])
+            small = text_spectrum([3], ["1.5", "2.25", "3"])
+            run_cli_many([(producer + ["--precision", "9", "-o", path], big)])
+            run_cli_many([(producer + ["--precision", "2", "-o", path], small)])
+            fresh = run_cli_many([(producer + ["--precision", "2"], small)])[0][1]
+            got = open(path, "rb").read() if os.path.exists(path) else b""
+            rep.count("overwrite-existing-output", " ".join(producer) + " -o (existing longer file)", True)
+            if got != fresh:
+                rep.fail(kind="property-oracle", cls="reads-what-it-writes:overwrite", case=" ".join(producer) + " -o PATH over a longer existing file",
+                         argv=["sfs"] + producer + ["--precision", "2", "-o", path], stdin=small.decode(), observed=got[:300].hex(), expected=fresh[:300].hex(),
+                         detail="writing a spectrum to an existing longer file leaves stale bytes: the file is not the spectrum that was written")
+            jobs.append((["view", path], b"")); labels.append("%s -o over longer file -> view (%s)" % (producer[0], fmtname))
     for lab, job, (rc, so, se) in zip(labels, jobs, run_cli_many(jobs)):
         rep.count("reads-what-it-writes", lab, True)
         if rc != 0 or so == b"":
